@@ -385,11 +385,57 @@ fn sizes(rng: &mut Rng, n: usize, big: bool) -> Vec<usize> {
         .collect()
 }
 
+/// payload size that gives message `i` a wire size (frame + terminator) of exactly `wire` bytes
+fn payload_for_wire(wire: usize, i: usize) -> usize {
+    let overhead = serde_json::to_vec(&Call::new(M::Blob { i: i as u32, data: String::new() })).map(|v| v.len()).unwrap_or(50) + 1;
+    wire.saturating_sub(overhead).max(1)
+}
+
+/// message lists whose wire sizes sit on the sizes a read buffer can have (256 * k, 256 * 2^k): a first message of
+/// exactly / one less / one more than the initial buffer, ascending powers of two, multiples of the growth step,
+/// each followed by a small message that must still arrive
+fn boundary_lists(rng: &mut Rng, thorough: bool) -> Vec<Vec<usize>> {
+    let mut ls: Vec<Vec<usize>> = vec![];
+    for w in [255usize, 256, 257] {
+        ls.push(vec![payload_for_wire(w, 0), 20]);
+    }
+    let mut asc = vec![];
+    for k in 8..=(if thorough { 18 } else { 16 }) {
+        asc.push(payload_for_wire(1 << k, asc.len()));
+        asc.push(rng.range(1, 40));
+    }
+    ls.push(asc);
+    for _ in 0..(if thorough { 12 } else { 3 }) {
+        let mut l = vec![];
+        for _ in 0..rng.range(2, 6) {
+            let w = match rng.below(3) { 0 => 256 * rng.range(1, 40), 1 => 256 << rng.below(9), _ => 256 * rng.range(1, 8) + rng.range(0, 2) - 1 };
+            l.push(payload_for_wire(w, l.len()));
+            if rng.chance(1, 2) {
+                l.push(rng.range(1, 60));
+            }
+        }
+        l.push(7);
+        ls.push(l);
+    }
+    ls
+}
+
 pub fn main(o: &Opts) {
     let mut em = Emitter { only: o.index, n: 0 };
     let mut rng = Rng::new(o.seed ^ 0x756e6978);
     let n = if o.thorough() { 150 } else { 16 };
+    let blists = boundary_lists(&mut Rng::new(o.seed ^ 0x626e6479), o.thorough());
     for rt in ["tokio", "smol"] {
+        for (bi, la) in blists.iter().enumerate() {
+            let lb: Vec<usize> = if bi % 2 == 0 { vec![] } else { la.iter().rev().take(3).copied().collect() };
+            let slow = (bi % 3) as u8;
+            em.case(|| {
+                let (a, b) = if rt == "tokio" { xfer_tokio(la, &lb, slow) } else { xfer_smol(la, &lb, slow) };
+                let f = |v: &[usize]| v.iter().map(|x| x.to_string()).collect::<Vec<_>>().join(" ");
+                let x = |v: &[usize]| v.iter().enumerate().map(|(i, n)| msg_hash(*n, i)).collect::<Vec<_>>().join(" ");
+                vec![format!("unix xfer {rt} A {} B {} slow={slow} XA {} XB {} => A {} ; B {}", f(la), f(&lb), x(la), x(&lb), a.join(" "), b.join(" "))]
+            });
+        }
         for t in 0..n {
             let big = t % 2 == 0;
             let na = rng.range(1, 10);
